@@ -160,8 +160,8 @@ Definition ser_options (o : options) : str :=
 (** * Reader of constructed trees (prefix notation, fixed arities) *)
 Fixpoint split_on (c : N) (s : str) (cur : str) : list str :=
   match s with
-  | [] => [rev cur]
-  | d :: r => if d =? c then rev cur :: split_on c r [] else split_on c r (d :: cur)
+  | [] => [rev_append cur []]
+  | d :: r => if d =? c then rev_append cur [] :: split_on c r [] else split_on c r (d :: cur)
   end.
 Definition tokens_of (s : str) : list str := split_on 32 s [].
 
